@@ -26,6 +26,12 @@ def V(id, template, desc, expected_verified=None, tier="quick", timeout=600, rli
                 tier=tier, timeout=timeout, rlimit=rlimit, witness=witness, complete=True, fns=[])
 
 
+def N(id, cmd, desc, bound, tier="quick", timeout=1800, fns=()):
+    """Native exhaustive / enumerative stand-in: a program linked against /repo that compares the real
+    function with an executable twin of the spec over a stated finite domain. NEVER counted as proved."""
+    return dict(id=id, engine="native", cmd=cmd, desc=desc, bound=bound, tier=tier, timeout=timeout, complete=False, fns=list(fns))
+
+
 def run_witness(w):
     try:
         p = subprocess.run(w["cmd"], shell=True, cwd=w.get("cwd", "/verif"), stdout=subprocess.PIPE,
@@ -194,8 +200,17 @@ PROPS["C15"] = dict(
           "StandardDataDictionaryRegistry::index files each entry under TagRange::inner and registers repeating ranges, "
           "preserving the registry invariant; TagRange::inner",
           expected_verified=8),
+        N("C15.exhaustive",
+          "cp /repo/Cargo.lock /verif/witness/Cargo.lock && CARGO_TARGET_DIR=/verif/build/witness cargo run --offline -q --release "
+          "--manifest-path /verif/witness/Cargo.toml --bin c15_exhaustive 2>&1 | grep -E '^(WITNESS|EXHAUSTIVE|error)' | tail -12",
+          "every one of the 2^32 tags: StandardDataDictionary::by_tag == the statement's precedence evaluated over the table rows "
+          "parsed from the text of dictionary-std/src/tags.rs (exact, repeating group, repeating element, private creator, group length, none)",
+          bound="exhaustive over all 4 294 967 296 tags (finite domain, compiled code; not a deductive proof)",
+          fns=[(_DD, "indexed_tag", r"impl\s+StandardDataDictionary\b")]),
     ],
     assumptions=[
+        "C15.exhaustive is an enumeration of the compiled code over all 2^32 tags against the table read from the text of tags.rs — a stand-in "
+        "that survives representation refactors of the registry; it is not a deductive result and is not counted in obligations/discharged",
         "HashMap/HashSet get/insert/contains behave as Map/Set (std collections assumed)",
         "registry() returns the registry built by init_dictionary: `for entry in ENTRIES { d.index(entry) }` (3-line loop and the "
         "once_cell lazy static are not verified; the invariant is established by new() and preserved by index)",
@@ -286,7 +301,9 @@ PROPS["C11"] = dict(
           "single-valued conversion returns the first of two items; Empty / no items => Err"),
         K("C11.multi", "ext",
           ["c11::c11_multi_int_u16_u8_n0", "c11::c11_multi_int_u16_u8_n1", "c11::c11_multi_float64_i32_n2",
-           "c11::c11_multi_float32_u16_n2"],
+           "c11::c11_multi_float32_u16_n2", "c11::c11_multi_int_u8_i32_n0", "c11::c11_multi_int_i16_i32_n0",
+           "c11::c11_multi_int_u32_i32_n0", "c11::c11_multi_int_i32_i32_n0", "c11::c11_multi_int_u64_u64_n0",
+           "c11::c11_multi_int_i64_i64_n0"],
           "to_multi_int / to_multi_float32 / to_multi_float64: exactly one result per stored value, in order; no items => empty list",
           fns=[(_PV, "to_multi_int", r"impl\s+PrimitiveValue"), (_PV, "to_multi_float32", r"impl\s+PrimitiveValue"),
                (_PV, "to_multi_float64", r"impl\s+PrimitiveValue")],
@@ -319,6 +336,10 @@ PROPS["C04"] = dict(
           "value bytes that follow, pad byte NUL (UI / binary) or space (DA/DT/TM, text); for ALL of them bytes_written "
           "advances by exactly the bytes appended to the sink",
           expected_verified=16),
+        V("C04.collection_delimited", "c04_collection_delimited.vrs",
+          "encode_collection_delimited (multi-valued date / time / date-time / string values): the count returned equals the "
+          "bytes appended to the sink (elements + one backslash between consecutive values), for any number of values",
+          expected_verified=2),
         K("C04.byte_len", "ext", _C04K,
           "BasicEncode::encode_primitive (three real encoders): count returned == bytes written == items x item size; "
           "PrimitiveValue::calculate_byte_len agrees (up to even rounding) — discharges the assumed link of the Verus unit for small values",
@@ -338,5 +359,7 @@ PROPS["C04"] = dict(
         "precondition room(n): bytes_written + n fits u64; value byte length < 2^32-2",
     ],
     uncovered=["validity of whole streams as judged by an independent parser", "DataSetWriter token machine (item/sequence delimiters vs lengths)",
-               "file writing (object/src/lib.rs)", "string/date/time value variants of encode_primitive"],
+               "file writing (object/src/lib.rs)",
+               "encode_date/encode_time/encode_datetime/write!(str) element encoders: their returned counts are assumed "
+               "(Kani harnesses over them exceed 600 s in format machinery)"],
 )
